@@ -1247,13 +1247,15 @@ class Mut:
         return None
 
     # -- decorations
-    def toggle_decoration(self, s, feat):
+    DECOS = ['index', 'cons', 'anno', 'policy', 'trigger', 'pcons', 'panno', 'default',
+             'readonly', 'otd', 'rewrite', 'annoval']
+
+    def toggle_decoration(self, s, feat, kind=None):
         ts = s.types()
         if not ts:
             return None
         t = self.rnd.choice(ts)
-        kind = self.rnd.choice(['index', 'cons', 'anno', 'policy', 'trigger', 'pcons', 'panno', 'default',
-                                'readonly', 'otd', 'rewrite', 'annoval'])
+        kind = kind or self.rnd.choice(self.DECOS)
         rnd = self.rnd
         if kind == 'index':
             if t['indexes'] and rnd.random() < 0.5:
@@ -1467,6 +1469,45 @@ def gen_pair(rnd, rich=True):
     return render(a), render(b), m
 
 
+def gen_sweep_struct(rnd):
+    """one pair per mutation operator (and per decoration kind), each applied alone to a rich base
+    schema: guarantees that every operator kind is exercised in every run.  -> [(A, B, meta)]"""
+    g = Gen(rnd, True)
+    m = Mut(g)
+    out = []
+    todo = [(op, None) for op, _ in Mut.OPS if op != 'toggle_decoration'] + \
+           [('toggle_decoration', k) for k in Mut.DECOS]
+    base = None
+    for _ in range(30):
+        s, f = g.schema(size=5)
+        if len(s.types()) >= 4 and any(t['bases'] for t in s.types()) and \
+                sum(1 for t in s.types() for p in t['ptrs'] if p['kind'] == 'link') >= 2:
+            base = (s, f)
+            break
+    if base is None:
+        base = g.schema(size=5)
+    for op, kind in todo:
+        for attempt in range(40):
+            if attempt and attempt % 10 == 0:
+                base = g.schema(size=5)          # operator not applicable to this base: try another one
+            b = base[0].clone()
+            feat = set(base[1])
+            try:
+                r = m.toggle_decoration(b, feat, kind) if kind else getattr(m, op)(b, feat)
+            except (Dangling, IndexError, KeyError, ValueError):
+                r = None
+            if r:
+                repair(b)
+                out.append((base[0], b, {'ops': [r], 'feat': sorted(feat), 'sweep': op + (':' + kind if kind else ''),
+                                         'ntypes': (len(base[0].types()), len(b.types()))}))
+                break
+    return out
+
+
+def gen_sweep(rnd):
+    return [(render(a), render(b), m) for a, b, m in gen_sweep_struct(rnd)]
+
+
 def gen_chain_struct(rnd, rich=True, maxlen=5):
     """([S1..Sn], meta) as Schema objects -- C10 case"""
     g = Gen(rnd, rich)
@@ -1660,3 +1701,270 @@ def dobj_nontrivial(line):
     olds = f[2].split(',') if f[2] else []
     news = f[3].split(',') if f[3] else []
     return len(olds) >= 2 and len(news) >= 2 and len([e for e in f[4].split(',') if e and e.split(':')[2] in '345']) >= 2
+
+
+# ------------------------------------------------------------------ running the real code
+
+def run_e2e(cases, workers=8, timeout=7200):
+    """run JSON cases through harness/impl/c02_impl.py in `workers` processes (each loads the std
+    schema once); results aligned with `cases`"""
+    import os
+    import subprocess
+    from concurrent.futures import ThreadPoolExecutor
+    import lib
+    impl = os.path.join(lib.VERIF, 'harness', 'impl', 'c02_impl.py')
+    env = lib.impl_env()
+    argv = [lib.PY, impl, lib.REPO, 'e2e']
+    # warm the std-schema cache in ONE process (cold build ~11 s; keyed by the repo's sources)
+    p = subprocess.run(argv, input='', env=env, stdout=subprocess.PIPE, stderr=subprocess.PIPE, text=True,
+                       timeout=1800)
+    if p.returncode != 0:
+        raise RuntimeError('c02_impl warm-up failed:\n' + p.stderr[-3000:])
+    if not cases:
+        return []
+    workers = max(1, min(workers, 8, len(cases)))
+    idx = [list(range(w, len(cases), workers)) for w in range(workers)]
+
+    def one(ix):
+        data = '\n'.join(json.dumps(cases[i]) for i in ix) + '\n'
+        q = subprocess.run(argv, input=data, env=env, stdout=subprocess.PIPE, stderr=subprocess.PIPE,
+                           text=True, timeout=timeout)
+        if q.returncode != 0:
+            raise RuntimeError(f'c02_impl rc={q.returncode}\n{q.stderr[-3000:]}')
+        out = [l for l in q.stdout.split('\n') if l]
+        if len(out) != len(ix):
+            raise RuntimeError(f'c02_impl: {len(out)} results for {len(ix)} cases\n{q.stderr[-2000:]}')
+        return [json.loads(l) for l in out]
+
+    res = [None] * len(cases)
+    with ThreadPoolExecutor(workers) as ex:
+        for ix, rs in zip(idx, ex.map(one, idx)):
+            for i, r in zip(ix, rs):
+                res[i] = r
+    return res
+
+
+def run_dobj(lines):
+    import os
+    import lib
+    impl = os.path.join(lib.VERIF, 'harness', 'impl', 'c02_impl.py')
+    return lib.parallel_lines([lib.PY, impl, lib.REPO, 'dobj'], [l[2:] for l in lines], env=lib.impl_env())
+
+
+# ------------------------------------------------------------------ known findings (proposals)
+# An entry suppresses nothing unless the main author has put its id into /verif/known_findings.json.
+
+USER_INPUT_RE = ('cannot be cast automatically', 'cannot automatically convert', 'cannot make ',
+                 'cannot change concrete base')
+
+TREE_ONLY_FIELDS = {('Function', 'params'), ('Constraint', 'params'), ('Constraint', 'finalexpr'),
+                    ('Link', 'computed_link_alias'), ('Property', 'computed_link_alias')}
+
+PROPOSED = {
+    'C02-errmessage-reset': {
+        'property': 'C02',
+        'site': 'edb/schema/constraints.py (AlterConstraint / errmessage field, DDL generation of RESET errmessage) '
+                'via edb/schema/ddl.py::ddlast_from_delta',
+        'predicate': 'A declares `errmessage := ...` on a constraint (abstract or concrete) and B declares the same '
+                     'constraint without errmessage (possibly renamed)',
+        'what': 'the computed migration contains no statement for the dropped errmessage: after POPULATE/COMMIT the '
+                'constraint keeps the old errmessage while the target has the inherited default; delta_schemas('
+                'result, target) is not empty (the server would answer "cannot commit incomplete migration"); the '
+                'command tree applied directly does reset it',
+        'replay': "A: module default { abstract constraint c { using (__subject__ > 0); errmessage := 'invalid'; }; } "
+                  "B: module default { abstract constraint c { using (__subject__ > 0); }; }"},
+    'C02-drop-extending-renamed-base': {
+        'property': 'C02',
+        'site': 'edb/schema/ordering.py::linearize_delta + edb/schema/inheriting.py (RebaseInheritingObject._get_ast): '
+                'DROP EXTENDING is printed with the base type\'s NEW name but ordered before the base type\'s RENAME',
+        'predicate': 'an object type T is renamed to T2 in the same migration in which a subtype drops T as a base',
+        'what': 'the script is `ALTER TYPE Sub { DROP EXTENDING T2 }; ALTER TYPE T RENAME TO T2;` - the first statement '
+                'is accepted as a no-op, the committed schema still has Sub extending T2 while the target does not',
+        'replay': 'A: module default { type Post; type Tag extending default::Post { multi link tags -> default::Post; }; '
+                  'abstract type Comment; }  B: module default { type User; type Tag; }'},
+    'C02-computed-grandchild-optionality': {
+        'property': 'C02',
+        'site': 'edb/schema/pointers.py (AlterPointer stored -> computed: `required` / inherited_fields propagation to '
+                'descendants of descendants) via edb/schema/inheriting.py',
+        'predicate': 'a stored pointer of an object type that has descendants at depth >= 2 becomes computed (`p -> T` to `p := expr`)',
+        'what': 'after COMMIT the grandchild\'s inherited pointer does not carry `required` in inherited_fields (the target '
+                'does); delta_schemas(result, target) = `alter type GrandChild { alter property p { reset optionality; }; }`; '
+                'a later step that renames the types is then rejected ("illegal for the computed property ... to overload an '
+                'existing property") although the same step is accepted on the directly migrated schema',
+        'replay': 'A: module default { type Tag { property email -> bool; }; type Mid extending default::Tag; type Leaf extending default::Mid; } '
+                  'B: the same with `property email := (false);`'},
+    'C02-tree-form-bookkeeping': {
+        'property': 'C02',
+        'site': 'edb/schema/delta.py DeltaRoot.apply of the tree returned by delta_schemas (functions.py RenameCallableObject, '
+                'constraints.py finalexpr, pointers.py computed_link_alias)',
+        'predicate': 'form = command tree applied directly (not through its DDL) AND the committed schema and the text replay '
+                     'both equal the target (tree-only divergence).  Seen so far: Function/Constraint.params (+ Parameter object '
+                     'names) after a rename of a function / abstract constraint, Constraint.finalexpr text after the constraint\'s '
+                     'subject moved to another module, Link.computed_link_alias after stored -> computed, Alias.type / '
+                     'created_types dangling after an alias changes from a scalar to an object expression',
+        'what': 'the directly applied command tree leaves these bookkeeping fields different from the target (Parameter '
+                'objects keep the old function name inside their own names; finalexpr keeps `(.p)` vs `.p`; '
+                'computed_link_alias is not set)',
+        'replay': 'A: module default { function f(a: int64) -> int64 using (a + 1); }  B: the same with f renamed to g'},
+    'C02-create-order-policy-computed': {
+        'property': 'C02',
+        'site': 'edb/schema/ordering.py::linearize_delta / edb/schema/ddl.py::ddlast_from_delta (expression refs computed in '
+                'the target schema are resolved before the referenced objects exist)',
+        'predicate': 'migration FROM THE EMPTY schema; the target has an object type with an access policy whose ancestor '
+                     'declares a computed link/property selecting through a link to that hierarchy, plus a sibling subtype',
+        'what': "POPULATE MIGRATION fails with InvalidReferenceError \"property 'id' does not exist\": the valid target schema "
+                'cannot be created by the computed migration',
+        'replay': 'B: module default { abstract type P { multi link tags -> P; link members := (select .tags limit 1); }; '
+                  'type U extending P { access policy pol_a allow all using (true); }; type F extending P; }'},
+}
+
+
+def _diff_items(cmpres):
+    """(class, field) items named by a monitor result"""
+    items = set()
+    if not isinstance(cmpres, dict):
+        return items
+    for d in cmpres.get('dump_diff', []):
+        if d[0] == 'field':
+            items.add((d[1].split(' ', 1)[0], d[2]))
+        else:
+            items.add((d[1].split(' ', 1)[0], d[0]))
+    return items
+
+
+def classify_monitor(form, cmpres, mon, a_text, b_text, script):
+    """finding id proposed for a failed monitor, or None"""
+    if not isinstance(cmpres, dict) or 'rejected' in cmpres:
+        return None
+    items = _diff_items(cmpres)
+    if items and items <= {('Constraint', 'errmessage'), ('Constraint', 'inherited_fields')} \
+            and 'errmessage' in a_text and form in ('commit', 'text'):
+        return 'C02-errmessage-reset'
+    if form in ('commit', 'text') and items and items <= {('Property', 'inherited_fields'), ('Link', 'inherited_fields')} \
+            and ':= (' in b_text and (form == 'text' or 'reset optionality' in (cmpres.get('own_diff') or '')):
+        return 'C02-computed-grandchild-optionality'
+    if form in ('commit', 'text') and 'drop extending' in (cmpres.get('own_diff') or '').lower() \
+            and script and 'DROP EXTENDING' in script.upper() and 'RENAME TO' in script.upper():
+        import re
+        m = re.search(r'drop extending ([\w:]+)', cmpres['own_diff'])
+        if m:
+            nm = m.group(1)
+            up = script
+            i = up.upper().find('DROP EXTENDING ' + nm.upper())
+            j = up.upper().find('RENAME TO ' + nm.upper())
+            if 0 <= i < j:
+                return 'C02-drop-extending-renamed-base'
+    if form == 'tree' and mon.get('commit') == 'eq' and mon.get('text') == 'eq':
+        # tree-only divergence: the committed schema and the text replay ARE the target; only the raw
+        # command tree applied directly (an internal form the system never commits) differs.  The
+        # (class, field) items are recorded in the evidence (tree_only_divergences).
+        return 'C02-tree-form-bookkeeping'
+    return None
+
+
+def classify_reject(step, from_empty, b_text):
+    """finding id proposed for a rejected migration from the empty schema"""
+    e = step.get('err') or {}
+    if from_empty and e.get('type') == 'InvalidReferenceError' and "property 'id' does not exist" in e.get('msg', '') \
+            and 'access policy' in b_text and ':= (' in b_text:
+        return 'C02-create-order-policy-computed'
+    return None
+
+
+def reject_class(step):
+    e = step.get('err') or {}
+    msg = e.get('msg', '')
+    if step.get('status') == 'diff-error':
+        return 'diff-reports-dependency-cycle' if 'dependency cycle' in msg else 'diff-error:' + e.get('type', '?')
+    if any(s in msg for s in USER_INPUT_RE):
+        return 'needs-user-input(cast/conversion)'
+    return f"{e.get('type', '?')}@{e.get('where', '?')}"
+
+
+# ------------------------------------------------------------------ abstract replay of the real partition
+
+def partition_line(step):
+    """K-line for the extracted Coq checker: the top-level objects of A and B and the real delta's
+    top-level create / delete / alter(+rename) commands, abstracted to names and classes.  Objects
+    present on both sides without a command are paired with themselves."""
+    topA, topB = step.get('topA'), step.get('topB')
+    if topA is None or topB is None:
+        return None
+    ids = {}
+    cls_ids = {}
+
+    def nid(n):
+        return ids.setdefault(n, len(ids) + 1)
+
+    def cid(c):
+        return cls_ids.setdefault(c, len(cls_ids) + 1)
+    cur = {n: n for n in topA}          # current name -> original old name
+    created = {}                        # current name -> True
+    deleted = []
+    for c in step['cmds']:
+        if c[0] != 0 and not (c[1] == 'rename' and c[0] == 1):
+            continue
+        op, name = c[1], c[3]
+        if op == 'create' and c[0] == 0:
+            if name in topB:
+                created[name] = True
+        elif op == 'delete' and c[0] == 0:
+            if name in cur:
+                deleted.append(cur.pop(name))
+            elif name in created:
+                created.pop(name)
+        elif op == 'rename':
+            new = c[4]
+            if name in cur:
+                cur[new] = cur.pop(name)
+            elif name in created:
+                created.pop(name)
+                created[new] = True
+    cmds = []
+    for newn, old in cur.items():
+        cmds.append(f'a:{nid(old)}:{nid(newn)}')
+    for n in created:
+        cmds.append(f'c:{nid(n)}')
+    for n in deleted:
+        cmds.append(f'd:{nid(n)}')
+    sa = ';'.join(f'{nid(n)}:{cid(c)}:0:' for n, c in topA.items())
+    sb = ';'.join(f'{nid(n)}:{cid(c)}:0:' for n, c in topB.items())
+    return f'K|{sa}|{sb}|' + ','.join(cmds)
+
+
+# ------------------------------------------------------------------ abstract model self-check cases
+
+def gen_abstract(rnd, maxn=7):
+    """P-line: random well-formed abstract schemas A, B (acyclic references) and a valid matching"""
+    def mk(names):
+        objs = []
+        for i, n in enumerate(names):
+            refs = [m for m in names[:i] if rnd.random() < 0.35]
+            objs.append((n, rnd.randint(1, 3), rnd.randint(0, 9), refs))
+        return objs
+    na = rnd.sample(range(1, 30), rnd.randint(0, maxn))
+    A = mk(na)
+    keep = [n for n in na if rnd.random() < 0.6]
+    fresh = [n for n in range(30, 60)]
+    rnd.shuffle(fresh)
+    m = []
+    bnames = []
+    clsA = {n: c for n, c, _, _ in A}
+    for n in keep:
+        if rnd.random() < 0.6:
+            bnames.append(n)
+            if rnd.random() < 0.85:
+                m.append((n, n))
+        else:
+            x = fresh.pop()
+            bnames.append(x)
+            m.append((n, x))
+    for _ in range(rnd.randint(0, 3)):
+        bnames.append(fresh.pop())
+    rnd.shuffle(bnames)
+    B = mk(bnames)
+    # classes of matched objects must agree
+    back = {x: y for y, x in m}
+    B = [(n, clsA[back[n]] if n in back else c, d, r) for n, c, d, r in B]
+    enc = lambda S: ';'.join(f'{n}:{c}:{d}:' + ','.join(map(str, r)) for n, c, d, r in S)
+    return 'P|' + enc(A) + '|' + enc(B) + '|' + ','.join(f'{y}:{x}' for y, x in m)
